@@ -146,6 +146,8 @@ def cases(tier, seed):
     for name in FORMS:
         out.append(dict(kind="bfs", form=name, depth=(4 if q else (6 if FORMS[name]["k"] == 1 else 5)), tier=tier))
     out.append(dict(kind="sympy", tier=tier))
+    for form in ("scalar", "block2", "scalar-k2"):
+        out.append(dict(kind="sq", form=form, tier=tier))
     return out
 
 
@@ -153,9 +155,104 @@ def leq(m, n):
     return all(a <= b for a, b in zip(m, n))
 
 
+def run_sq(case):
+    """Second-quantised Hamiltonians given as lazily defined series of operator expressions."""
+    import sympy
+    from sympy.physics.quantum import Dagger
+    from sympy.physics.quantum.boson import BosonOp
+
+    from pymablock import block_diagonalize
+    from pymablock.number_ordered_form import NumberOperator
+    from pymablock.series import BlockSeries, zero
+
+    a = BosonOp("a")
+    N = NumberOperator(a)
+    form = case["form"]
+    k = 2 if form == "scalar-k2" else 1
+    V = []
+    transitions = 0
+
+    def term(order, bump=False):
+        t = sum(order)
+        extra = (N if bump else 0)
+        if t == 0:
+            return N + N**2 / 7
+        if t == 1:
+            return (a + Dagger(a)) * (order.index(1) + 1) + extra
+        if t == 2:
+            return a**2 + Dagger(a) ** 2 + extra
+        if t == 3:
+            return N * (a + Dagger(a)) + extra
+        return None
+
+    def make(log, bump_not_leq=None, locked=False):
+        def val(order):
+            if locked and any(order):
+                raise RuntimeError("term not available")
+            bump = bump_not_leq is not None and not all(o <= b for o, b in zip(order, bump_not_leq))
+            return term(order, bump)
+
+        if form == "block2":
+            def ev(i, j, *order):
+                log.append((int(i), int(j)) + tuple(int(x) for x in order))
+                v = val(tuple(order))
+                if v is None:
+                    return zero
+                if not any(order):
+                    return sympy.Matrix([[v + (3 if i else 0)]]) if i == j else zero
+                return sympy.Matrix([[v if i == j else a + 2 * Dagger(a) if i < j else Dagger(a) + 2 * a]])
+
+            return BlockSeries(eval=ev, shape=(2, 2), n_infinite=k, name="Hsq")
+
+        def evs(*order):
+            log.append(tuple(int(x) for x in order))
+            v = val(tuple(order))
+            return zero if v is None else v
+
+        return BlockSeries(eval=evs, shape=(), n_infinite=k, name="Hsq")
+
+    # definition must only touch zeroth order, and must succeed when nothing else is available
+    log = []
+    try:
+        block_diagonalize(make(log, locked=True))
+    except Exception as e:  # noqa: BLE001
+        V.append(f"defining the computation needs a non-zeroth-order term: {type(e).__name__}: {str(e)[:80]}")
+    for idx in log:
+        if any(idx[-k:]):
+            V.append(f"construction evaluated the non-zeroth-order Hamiltonian term {idx}")
+    reqs = [(1,), (2,), (3,)] if k == 1 else [(1, 0), (0, 1), (1, 1), (2, 0)]
+    nb = 2 if form == "block2" else 1
+    for perm in itertools.permutations(reqs, 2):
+        log = []
+        outs = block_diagonalize(make(log))
+        for n in perm:
+            mark = len(log)
+            for w in range(3):
+                for i in range(nb):
+                    outs[w][(i, i) + n]
+            transitions += 1
+            for idx in log[mark:]:
+                if not all(x <= y for x, y in zip(idx[-k:], n)):
+                    V.append(f"request at order {n} evaluated Hamiltonian term {idx}")
+        if len(set(log)) != len(log):
+            V.append(f"a Hamiltonian term was evaluated more than once along requests {perm}")
+    # differential: altering terms not <= n leaves the values unchanged
+    for n in reqs[:3]:
+        o1 = block_diagonalize(make([]))
+        o2 = block_diagonalize(make([], bump_not_leq=n))
+        for w in range(3):
+            if str(o1[w][(0, 0) + n]) != str(o2[w][(0, 0) + n]):
+                V.append(f"output {w} at order {n} changes when terms at orders not <= n are altered")
+    return dict(violations=[dict(what=f"{w} [second-quantised lazy input, form={form}]", key=None) for w in V[:3]], nontrivial=True,
+                outcome="sq", stats=dict(states=len(reqs) * (len(reqs) - 1), transitions=transitions, traces_validated_against_impl=0),
+                sample=dict(kind="sq", form=form, requests=[list(r) for r in reqs]))
+
+
 def run_case(case):
     if case["kind"] == "sympy":
         return run_sympy(case)
+    if case["kind"] == "sq":
+        return run_sq(case)
     spec = FORMS[case["form"]]
     k = spec["k"]
     letters = letters_for(spec, None)
